@@ -94,7 +94,7 @@ static void child_run(const Plan& p, const std::string& root) {
         }
         if (skip) continue;
         if ((op.name == "fd_pwrite") && entry(op.get("fd")) && entry(op.get("fd"))->append) continue;   // POSIX-ambiguous: positional write on O_APPEND
-        if (op.n.count("abs") && !op.path.empty() && op.path[0] != '/') { MFd* d = entry(op.get("dirfd")); if (d) op.path = d->ppath + "/" + op.path; }
+        if (op.n.count("abs") && !op.path.empty() && op.path[0] != '/') { MFd* d = entry(op.get("dirfd")); op.path = ((d && !d->ppath.empty()) ? d->ppath : ctx.P + "/d0") + "/" + op.path; }      // dead / standard-stream / never-issued handles: below the first pre-opened directory
         exec_op(op);
         if (S->nviol) break;
     }
@@ -188,6 +188,7 @@ static void gen_c13(Plan& p, Rng& r) {
             if (c < 7) o.n["dirfd_dir"] = r.below(6); else if (c < 8) o.n["dirfd_closed"] = r.below(4); else if (c < 9) o.n["dirfd_never"] = r.below(3); else o.n["dirfd"] = r.below(3);
             o.n["oflags"] = (o.path == "sub" || o.path == ".") ? (r.below(2) ? 2 : 0) : (r.below(2) ? 1 : 0); o.n["rights"] = (int64_t)((o.path == "sub" || o.path == ".") ? R_READ : (R_READ | R_WRITE));
             if (faults && r.below(4) == 0) { o.fault = r.below(2) ? "open_emfile" : "strndup_fail"; o.fault_nth = 1; }
+            if (r.below(4) == 0) o.n["abs"] = 1;      // an absolute path (names an existing host file): the directory handle still has to be valid
             p.ops.push_back(o);
         } else if (k < 52) {
             Op o = mkop("fd_close", r); uint32_t c = r.below(10);
@@ -278,8 +279,9 @@ static void gen_c15(Plan& p, Rng& r) {
     uint32_t argbase = 1;
     for (int i = 0; i < n; i++) {
         uint32_t k = r.below(100);
-        if (k < 15) p.ops.push_back(mkop("args", r));
-        else if (k < 30) p.ops.push_back(mkop("environ", r));
+        // place: 0 anywhere, 1 the string buffer ends with the last byte of linear memory, 2 the pointer array does
+        if (k < 15) { Op o = mkop("args", r); o.n["place"] = r.below(4) == 0 ? 1 + (int64_t)r.below(2) : 0; p.ops.push_back(o); }
+        else if (k < 30) { Op o = mkop("environ", r); o.n["place"] = r.below(4) == 0 ? 1 + (int64_t)r.below(2) : 0; p.ops.push_back(o); }
         else if (k < 55) { Op o = mkop(r.below(4) == 0 ? "clock_res_get" : "clock_time_get", r); static const int64_t ids[] = {0, 1, 0, 1, 1, 2, 3, 4, 5, 0xFFFFFFFFll, 100}; o.n["id"] = ids[r.below(11)]; { static const int64_t pr[] = {0, 1, 1000, 1000000, 10000000, 1000000000ll}; o.n["precision"] = pr[r.below(6)]; }
             if (o.name == "clock_time_get" && o.n["id"] < 4 && r.below(10) == 0) { o.fault = "clock_fail"; o.fault_nth = 1; o.fault_param = r.below(2) ? EINVAL : EPERM; }
             p.ops.push_back(o); }
